@@ -59,8 +59,16 @@ class HSS(Harness):
             if not eng.concrete:
                 eng.assume(r.e >= 0)
             return r
-        st = {"pybads.bads.bads": dict(acq_fcn_lcb=acq, local_gp_fitting=lambda gp_, *a: (gp_, 1),
-                                       add_and_update_gp=lambda fl_, gp_, *a: gp_, udist=udist_stub)}
+        gp_fit_calls, gp_add_calls = [], []
+
+        def lgf(gp_, current_point, *a):
+            gp_fit_calls.append(snap(np.asarray(_raw(current_point))))
+            return gp_, 1
+
+        def aug(fl_, gp_, x_new, y_new, sd_new=None, options=None):
+            gp_add_calls.append((snap(np.asarray(_raw(x_new))), y_new, sd_new))
+            return gp_
+        st = {"pybads.bads.bads": dict(acq_fcn_lcb=acq, local_gp_fitting=lgf, add_and_update_gp=aug, udist=udist_stub)}
         rb = Rebinder(eng.concrete, stubs=stubs(**st))
         B = rb.cls(badsmod.BADS)
         self = B.__new__(B)
@@ -215,6 +223,12 @@ class HSS(Harness):
             if level == 0:
                 impr = f0 - ys[0]
                 out.ob("search_success_iff_sufficient_improvement", O.Iff(O.gt(impr, suff), self.search_success == 1))
+        for cp in gp_fit_calls:
+            # the local GP is centred on the incumbent (before the evaluation) or on the newly evaluated point (noisy posterior update)
+            out.ob("gp_recentred_on_incumbent", O.Or(O.rows_eq(cp, u0, 0.0), *([O.rows_eq(cp, us[0], 0.0)] if n == 1 else [])))
+        if n == 1 and gp_add_calls:
+            xa, ya, sa = gp_add_calls[0]
+            out.ob("gp_updated_with_the_new_observation", O.And(O.rows_eq(xa, us[0], 0.0), O.eq(ya, ys[0], 0.0)))
         if level == 0:
             allv = [y0] + ys
             ynew = self.yval
